@@ -994,20 +994,21 @@ pub fn write_u32_probe<W: fmt::Write>(mut w: W, value: u32, width: usize) -> Res
     Ok(())
 }
 
-// markers standing for "the text returned by helper X" in the glue obligation
-pub fn mk_month_str(_dt: &NaiveDateTime) -> &str { "a" }
-pub fn mk_day_str(_dt: &NaiveDateTime) -> &str { "b" }
-pub fn mk_hour24_str(_dt: &NaiveDateTime) -> &str { "c" }
-pub fn mk_hour12_str(_dt: &NaiveDateTime) -> &str { "d" }
-pub fn mk_minute_str(_dt: &NaiveDateTime) -> &str { "e" }
-pub fn mk_second_str(_dt: &NaiveDateTime) -> &str { "f" }
-pub fn mk_month_name(_dt: &NaiveDateTime, _style: NameStyle) -> &str { "g" }
+// markers standing for "the text returned by helper X" in the glue obligation; each marker asserts the index range for
+// which the helper was checked (its precondition), so a caller that can pass a larger index fails here
+pub fn mk_month_str(dt: &NaiveDateTime) -> &str { assert!(dt.month <= 12); "a" }
+pub fn mk_day_str(dt: &NaiveDateTime) -> &str { assert!(dt.day <= 31); "b" }
+pub fn mk_hour24_str(dt: &NaiveDateTime) -> &str { assert!(dt.hour <= 23); "c" }
+pub fn mk_hour12_str(dt: &NaiveDateTime) -> &str { assert!(dt.hour <= 23); "d" }
+pub fn mk_minute_str(dt: &NaiveDateTime) -> &str { assert!(dt.minute <= 59); "e" }
+pub fn mk_second_str(dt: &NaiveDateTime) -> &str { assert!(dt.sec <= 59); "f" }
+pub fn mk_month_name(dt: &NaiveDateTime, _style: NameStyle) -> &str { assert!(dt.month >= 1 && dt.month <= 12); "g" }
 pub fn mk_week_day_name(_dt: &NaiveDateTime, _date: Option<Date>, _style: NameStyle) -> Result<&str> { Ok("h") }
 pub fn mk_day_of_week_str(_dt: &NaiveDateTime, _date: Option<Date>) -> Result<&str> { Ok("i") }
-pub fn mk_day_of_year_str(_dt: &NaiveDateTime) -> &str { "j" }
-pub fn mk_week_of_month_str(_dt: &NaiveDateTime) -> &str { "k" }
-pub fn mk_week_of_year_str(_dt: &NaiveDateTime) -> &str { "l" }
-pub fn mk_ampm_format(_s: &AmPmStyle, _hour: u32) -> &str { "n" }
+pub fn mk_day_of_year_str(dt: &NaiveDateTime) -> &str { assert!(dt.month >= 1 && dt.month <= 12 && dt.day >= 1 && dt.day <= 31); "j" }
+pub fn mk_week_of_month_str(dt: &NaiveDateTime) -> &str { assert!(dt.day >= 1 && dt.day <= 31); "k" }
+pub fn mk_week_of_year_str(dt: &NaiveDateTime) -> &str { assert!(dt.month >= 1 && dt.month <= 12 && dt.day >= 1 && dt.day <= 31); "l" }
+pub fn mk_ampm_format(_s: &AmPmStyle, hour: u32) -> &str { assert!(hour <= 23); "n" }
 
 /// which helper a token uses, or None where the token does not apply to the type; directly computed tokens render in full
 fn glue_ref<T: DateTimeFormat>(f: &Field, p: &Probe<T>, out: &mut [u8; EXPN], at: usize) -> Option<usize> {
